@@ -263,8 +263,22 @@ def run(ctx: Ctx) -> int:
     ut = url_tests[0].test
     verdict, why_ = None, ""
     txt_ = ast.unparse(ut).replace(" ", "").replace('"', "'")
-    if txt_ in (f"{pp_}.find('://')>0", f"{pp_}.find('://')>=0", f"{pp_}.find('://')!=-1", f"'://'in{pp_}"):
-        verdict = True
+    import re as _re19
+
+    sub_const = None
+    if isinstance(ut, ast.Compare) and len(ut.ops) == 1:
+        l_, r_ = ut.left, ut.comparators[0]
+        if isinstance(l_, ast.Call) and call_leaf(l_) in ("find", "index") and root_name(l_.func) == pp_ and l_.args and const_str(l_.args[0]) is not None and isinstance(ut.ops[0], (ast.Gt, ast.GtE, ast.NotEq)):
+            sub_const = const_str(l_.args[0])
+        elif isinstance(ut.ops[0], ast.In) and const_str(l_) is not None and isinstance(r_, ast.Name) and r_.id == pp_:
+            sub_const = const_str(l_)
+    if sub_const is not None:
+        from .relang import DFA
+
+        lang = DFA.from_regex("(?s:.*)" + _re19.escape(sub_const) + "(?s:.*)", mode="fullmatch")
+        urls = DFA.from_regex("(?s:.*)://(?s:.*)", mode="fullmatch")
+        okk, wit_ = urls.includes(lang)
+        verdict, why_ = okk, f"e.g. {wit_!r}"
     else:
         rm = [c for c in ast.walk(ut) if isinstance(c, ast.Call) and call_name(c) in ("re.match", "re.search", "re.fullmatch") and c.args and const_str(c.args[0]) is not None]
         if len(rm) == 1 and isinstance(ut, ast.Call):
